@@ -344,6 +344,13 @@ func terminates(list []ast.Stmt) bool {
 		return false
 	}
 	switch s := list[len(list)-1].(type) {
+	case *ast.ExprStmt:
+		if call, ok := s.X.(*ast.CallExpr); ok {
+			if id, ok := call.Fun.(*ast.Ident); ok && id.Name == "panic" {
+				return true
+			}
+		}
+		return false
 	case *ast.ReturnStmt:
 		return true
 	case *ast.BranchStmt:
@@ -556,6 +563,10 @@ func (c *fctx) block(list []ast.Stmt, k string) string {
 			return l.breakCode
 		}
 		c.fail(s, "branch %s", s.Tok)
+	case *ast.ExprStmt:
+		if isPanicCall(c.info, s) {
+			return "Res.fault"
+		}
 	case *ast.IfStmt:
 		return c.ifStmt(s, rest, k)
 	case *ast.SwitchStmt:
@@ -1084,4 +1095,17 @@ func loopArgs(fi *fnInfo) string {
 		s += " G_"
 	}
 	return s
+}
+
+func isPanicCall(info *types.Info, s *ast.ExprStmt) bool {
+	call, ok := s.X.(*ast.CallExpr)
+	if !ok {
+		return false
+	}
+	id, ok := call.Fun.(*ast.Ident)
+	if !ok {
+		return false
+	}
+	b, ok := info.Uses[id].(*types.Builtin)
+	return ok && b.Name() == "panic"
 }
